@@ -270,6 +270,54 @@ def fixture_variants(name):
     return out
 
 
+def option_values(cls, pname, default):
+    """other values a constructor parameter can take, read from the class itself: the opposite of a boolean
+    default; for a string default the string literals the package's classes in the MRO compare the parameter with
+    (`self.p == "x"`, `p in ("x", "y")`, `self.p != "x"`)."""
+    import ast, textwrap
+    if isinstance(default, bool):
+        return [not default]
+    if not isinstance(default, str):
+        return []
+    vals = []
+    for c in cls.__mro__:
+        if not (c.__module__ or "").startswith("sktime"):
+            continue
+        try:
+            tree = ast.parse(textwrap.dedent(inspect.getsource(c)))
+        except Exception:
+            continue
+        for n in ast.walk(tree):
+            if not isinstance(n, ast.Compare):
+                continue
+            sides = [n.left] + list(n.comparators)
+            is_p = lambda x: (isinstance(x, ast.Attribute) and x.attr == pname and isinstance(x.value, ast.Name)
+                              and x.value.id == "self") or (isinstance(x, ast.Name) and x.id == pname)
+            if not any(is_p(x) for x in sides):
+                continue
+            for x in sides:
+                for y in ([x] if isinstance(x, ast.Constant) else list(getattr(x, "elts", []))):
+                    if isinstance(y, ast.Constant) and isinstance(y.value, str) and y.value != default and y.value not in vals:
+                        vals.append(y.value)
+    return vals[:4]
+
+
+def param_variants(cls, params, fx):
+    """[(label, constructor kwargs)]: every boolean / option parameter moved off its default, one at a time"""
+    out = []
+    for p in params:
+        if p.default is p.empty or p.name in fx:
+            base = fx.get(p.name, None)
+            if not isinstance(base, bool):
+                continue
+            alts = [not base]
+        else:
+            alts = option_values(cls, p.name, p.default)
+        for a in alts:
+            out.append(("%s=%s" % (p.name, str(a).replace(" ", "_").replace(",", ";")), dict(fx, **{p.name: a}), p.name, a))
+    return out
+
+
 def call_args(fam, method, D):
     """(args, kwargs) of a valid call of an apply-type method"""
     if fam == "forecaster":
@@ -665,6 +713,34 @@ def _probe_class(module, name, key, table_params, do_fit=True, budget_s=20.0):
     for m in methods:
         a, k = call_args(fam, m, D)
         guards[m] = _outcome(lambda: getattr(est, m)(*a, **k))
+    # the same clause for every boolean / option parameter off its default: constructed so, and switched by
+    # set_params on a fresh object
+    pvariants = []
+    try:
+        pvariants = param_variants(cls, params, fixture_params(name))
+    except BaseException:
+        pvariants = []
+    obs["nvariants"] = 0
+    for label, kw, pn_, alt in pvariants:
+        for route in ("ctor", "set"):
+            try:
+                with warnings.catch_warnings():
+                    warnings.simplefilter("ignore")
+                    if route == "ctor":
+                        ev = cls(**kw)
+                    else:
+                        ev = cls(**fixture_params(name))
+                        ev.set_params(**{pn_: alt})
+            except BaseException:
+                continue
+            obs["nvariants"] += 1
+            for m in methods:
+                if guards.get(m) != "NF" or not _has_method(ev, m):
+                    continue
+                a, k = call_args(fam, m, D)
+                o2 = _outcome(lambda: getattr(ev, m)(*a, **k), limit=5.0)
+                if o2 not in ("NF", "skip"):
+                    guards[m] = "var:%s:%s:%s" % (route, label, o2)
     # fit
     t0 = time.time()
     try:
@@ -744,6 +820,32 @@ def _probe_class(module, name, key, table_params, do_fit=True, budget_s=20.0):
                     if isinstance(e, (KeyboardInterrupt, SystemExit)):
                         raise
                     obs["fitdiag"] += " variant fit failed: %s %s" % (canon_err(e), str(e)[:60])
+        # clone of a fitted variant (boolean / option parameters off their default)
+        tv0 = time.time()
+        for label, kw, pn_, alt in pvariants:
+            if time.time() - tv0 > budget_s:
+                break
+            try:
+                import joblib
+                from sklearn.base import clone
+                with warnings.catch_warnings():
+                    warnings.simplefilter("ignore")
+                    ev = cls(**kw)
+                    with joblib.parallel_backend("threading"):
+                        with time_limit(min(budget_s, 5.0)):
+                            ev.fit(*fit_args(fam, name, D)[0], **fit_args(fam, name, D)[1])
+                    cv_ = clone(ev)
+            except BaseException as e:
+                if isinstance(e, (KeyboardInterrupt, SystemExit)):
+                    raise
+                continue
+            for m in methods:
+                if guards.get(m) != "NF" or not _has_method(cv_, m):
+                    continue
+                a, k = call_args(fam, m, D)
+                o2 = _outcome(lambda: getattr(cv_, m)(*a, **k), limit=5.0)
+                if o2 not in ("NF", "skip"):
+                    guards[m] = "var:clone-of-fitted:%s:%s" % (label, o2)
         # clone of the fitted estimator: every apply-type method must raise NotFittedError again
         try:
             from sklearn.base import clone
